@@ -514,12 +514,18 @@ class Expr:
         elif self.is_deriv():
             return Deriv(self.var, self.body.subst(var, e))
         elif self.is_limit():
-            return Limit(self.var, self.lim.subst(var, e), self.body.subst(var, e))
+            if self.var == var:
+                return Limit(self.var, self.lim.subst(var, e), self.body, self.drt)
+            return Limit(self.var, self.lim.subst(var, e), self.body.subst(var, e), self.drt)
         elif self.is_inf():
             return self
         elif self.is_integral():
+            if self.var == var:
+                return Integral(self.var, self.lower.subst(var, e), self.upper.subst(var, e), self.body)
             return Integral(self.var, self.lower.subst(var, e), self.upper.subst(var, e), self.body.subst(var, e))
         elif self.is_indefinite_integral():
+            if self.var == var:
+                return self
             return IndefiniteIntegral(self.var, self.body.subst(var, e), self.skolem_args)
         elif self.is_evalat():
             return EvalAt(self.var, self.lower.subst(var, e), self.upper.subst(var, e), self.body.subst(var, e))
